@@ -378,6 +378,29 @@ def monitor_single_continuation(w: World) -> tuple[str, Any] | None:
     return None
 
 
+def monitor_completion_has_execution(w: World) -> tuple[str, Any] | None:
+    """C02: a task is durably completed by the regular step (CompleteTask handler) only after its
+    body ran in THIS arming: between the task's last -> RUNNING and its completion there is a
+    ledger entry of it.  (A stale completion of an earlier loop iteration would complete the re-run
+    task without running it.)"""
+    names = {r["id"]: (r["stage_id"], r["name"]) for r in w.q("SELECT id, stage_id, name FROM task_executions")}
+    refs = {i: r for r, i in w.refs.items()}
+    last_running: dict[str, int] = {}
+    for row in w.audit():
+        if row["tbl"] != "task":
+            continue
+        if row["new"] == "RUNNING":
+            last_running[row["id"]] = row["seq"]
+        elif row["new"] in ("SUCCEEDED", "FAILED_CONTINUE", "TERMINAL", "STOPPED") and (row["ctx"] or "") == "CompleteTask":
+            sid, tname = names.get(row["id"], (None, None))
+            ref = refs.get(sid)
+            since = last_running.get(row["id"], 0)
+            ran = any(e["ref"] == ref and e["task"] == tname and since <= e["audit_seq"] <= row["seq"] for e in w.ledger.entries)
+            if not ran:
+                return ("task_completed_without_running_in_this_iteration/%s.%s" % (ref, tname), {"stage": ref, "task": tname, "completed_as": row["new"], "running_since_audit_seq": since, "completed_at_audit_seq": row["seq"]})
+    return None
+
+
 def monitor_no_rerun_of_recorded(w: World) -> tuple[str, Any] | None:
     """C02: a task whose result has been recorded is never executed again: at execution time the
     durable task row must be RUNNING (read on a second connection by the harness task)."""
@@ -554,6 +577,7 @@ MONITORS = {
     "C03": lambda w, spec: monitor_dependencies(w, spec),
     "C16": lambda w, spec: monitor_dataflow(w, spec),
     "C02x": lambda w, spec: monitor_single_continuation(w),
+    "C02y": lambda w, spec: monitor_completion_has_execution(w),
     "C07j": lambda w, spec: monitor_join_bookkeeping(w, spec),
 }
 
@@ -1938,3 +1962,67 @@ def post_retry_bound(w: World, snap: dict[str, Any], info: dict[str, Any]) -> tu
     if snap["workflow"] != "TERMINAL":
         return ("not_terminal_at_limit/%s" % snap["workflow"], {"executions": len(execs), "workflow": snap["workflow"]})
     return None
+
+
+# ----------------------------------------------------------------------------------------------- transient commit fault (no process death)
+def commit_fault_run(prop: str, workload: str, k_sym: Any, monitors: tuple[str, ...] = (), compare: str = "reference", events: bool = False) -> bool:
+    """The k-th commit made inside a handler fails with sqlite3.OperationalError('database is
+    locked') (k symbolic: every handler commit of the run); the process survives, the failed transaction is rolled
+    back by the code's own error handling, the processor reschedules the message and it is handled
+    again later.  Oracle: quiescence and the outcome of the undisturbed run (one extra execution of
+    a task body allowed, as after a crash)."""
+    import sqlite3 as _sq
+
+    with hx.Path("commit_fault:" + workload) as P:
+        with hx.native():
+            ref = reference(workload, events)
+            w = World(events=events)
+            try:
+                wf = WORKLOADS[workload]()
+                spec = spec_of(wf)
+                w.submit(wf)
+                base = HOOKS.commits
+                fired: list[Any] = []
+
+                def hook(conn: Any) -> None:
+                    if not HOOKS.ctx:
+                        return  # only commits made while a handler runs (the queue's own poll / ack commits are C08's subject)
+                    state["n"] += 1
+                    if not fired and hx.decide_eq(k_sym, state["n"]):
+                        fired.append((state["n"], commit_site()))
+                        HOOKS.commits -= 1  # this commit does not happen
+                        raise _sq.OperationalError("database is locked")
+
+                state = {"n": 0}
+                HOOKS.on_commit = hook
+                try:
+                    w.drain()
+                finally:
+                    HOOKS.on_commit = None
+                w.drain()
+                snap = w.snapshot()
+                summ = summarize(snap)
+                if not fired:
+                    return True
+                site = fired[0][1]
+                P.reached("%s@%d" % (workload, fired[0][0]), {"workload": workload, "failed_commit": fired[0][0], "site": site, "final": summ["workflow"]})
+                info = {"workload": workload, "failed_commit": fired[0][0], "site": site, "final": summ["stages"], "workflow": summ["workflow"], "errors": w.handler_errors[:3]}
+                for m in monitors:
+                    bad = MONITORS[m](w, spec)
+                    if bad is not None:
+                        return P.fail("%s/commit_fault/%s/%s@%s" % (prop, workload, bad[0], site), {**info, "detail": bad[1]})
+                q = quiescent_ok(snap)
+                if q is not None:
+                    return P.fail("%s/commit_fault/%s/not_quiescent/%s@%s" % (prop, workload, state_sig(summ), site), {**info, "why": q})
+                if compare != "none":
+                    rs = ref["summary"]
+                    if summ["workflow"] != rs["workflow"] or (compare != "workflow" and summ["stages"] != rs["stages"]):
+                        return P.fail("%s/commit_fault/%s/outcome_differs/%s@%s" % (prop, workload, state_sig(summ), site), {**info, "expected": rs["stages"]})
+                    if compare in ("reference", "counts"):
+                        a_, b_ = Counter((r, t) for r, t, _ in _ledger_view(w)), Counter((r, t) for r, t, _ in ref["ledger"])
+                        if (b_ - a_) or sum((a_ - b_).values()) > 1:
+                            return P.fail("%s/commit_fault/%s/executions_differ@%s" % (prop, workload, site), {**info, "extra": sorted((a_ - b_).elements())[:4], "missing": sorted((b_ - a_).elements())[:4]})
+                return True
+            finally:
+                HOOKS.on_commit = None
+                w.close()
